@@ -150,7 +150,8 @@ def run_hyp(desc):
     fn_bits = [F.DOTMATCH, F.IGNORECASE, F.CASE, F.NEGATE, F.MINUSNEGATE, F.SPLIT, F.BRACE, F.NEGATEALL, F.FORCEWIN, F.FORCEUNIX,
                F.RAWCHARS, F.EXTMATCH]
     gl_bits = fn_bits + [G.GLOBSTAR, G.GLOBSTARLONG, G.MATCHBASE, G.NODIR, G.NODOTDIR]
-    raw_bits = st.sampled_from(['\\x41', '\\101', '\\n', '\\\\', '\\x2a', '{a,b}', 'a|b', '!a', '-a', '\\/'])
+    raw_bits = st.sampled_from(['\\x41', '\\101', '\\n', '\\\\', '\\x2a', '{a,b}', 'a|b', '!a', '-a', '\\/', '\\xe9', '\\351', '[\\xe0-\\xef]', 'caf\\xe9',
+                                 '[!\\x80-\\xff]', '\\xff*', '\\200'])
 
     @seed(desc['seed'])
     @util.hyp_settings(desc['n'], shrink=False)
@@ -168,7 +169,7 @@ def run_hyp(desc):
             if pathmode or b in fn_bits:
                 fl |= b
         mode = 'gl' if pathmode else 'fn'
-        names = list(N.all_names('abA.x' + ('/' if pathmode else ''), 3)) + ['A', 'a\nb', 'a b', '-a', '!a', '{a,b}', 'a|b', '*']
+        names = list(N.all_names('abA.x' + ('/' if pathmode else ''), 3)) + ['A', 'a\nb', 'a b', '-a', '!a', '{a,b}', 'a|b', '*', '\xe9', 'caf\xe9', '\xc3\xa9', '\xff', '\xffa', '\x80', '\xe0']
         case = {'mode': mode, 'pattern': pats, 'exclude': excl, 'flags': fl, 'stream': 'hyp'}
         out.stats['hyp_cases'] += 1
         try:
